@@ -12,9 +12,13 @@ KNOWN_LVL = 'one-tailed-level-below-half'
 KNOWN_VAR = 'variable-cost-mean-vs-percentiles'
 
 
-def fit_iroas(spec, **kw):
+def fit_iroas(spec, history=None, **kw):
+  """history: a specification analysed on the same object first (object re-use)."""
   from matched_markets.methodology import tbr_iroas
   m = tbr_iroas.TBRiROAS(use_cooldown=spec['n_cool'] > 0)
+  if history is not None:
+    m.fit(tbrfam.build_df(history))
+    m.summary(level=0.9, tails=1, nsims=50, random_state=1)
   m.fit(tbrfam.build_df(spec, **kw))
   return m
 
@@ -27,8 +31,8 @@ def row(rep):
 def analyse(seed):
   rng = random.Random(seed)
   out = {'fails': [], 'known': [], 'seed': seed}
-  kind = rng.choice(['fixed', 'fixed', 'variable', 'tiny', 'control-only', 'pre-only', 'negative'])
-  spec = tbrfam.gen_frame(seed, scenario='variable' if kind in ('variable', 'control-only', 'pre-only') else 'fixed')
+  kind = rng.choice(['fixed', 'fixed', 'variable', 'tiny', 'control-only', 'pre-only', 'negative', 'treatment-pre', 'control-pre'])
+  spec = tbrfam.gen_frame(seed, scenario='variable' if kind in ('variable', 'control-only', 'pre-only', 'treatment-pre', 'control-pre') else 'fixed')
   npre, ntest = spec['n_pre'], spec['n_test']
   if kind == 'tiny':                         # costs that are "approximately zero" outside the treatment test period
     for g in spec['geos']:
@@ -45,6 +49,15 @@ def analyse(seed):
       for t in range(len(g['cost'])):
         if t >= npre and g['group'] == 1:
           g['cost'][t] = 0.0
+  if kind == 'treatment-pre':                # only the treatment group ever spends, also before the test
+    for g in spec['geos']:
+      if g['group'] == 1:
+        g['cost'] = [0.0] * len(g['cost'])
+  if kind == 'control-pre':                  # the only non-incremental spend is the control group's, before the test
+    for g in spec['geos']:
+      for t in range(len(g['cost'])):
+        if (g['group'] == 2 and t < npre) or (g['group'] == 1 and t >= npre):
+          g['cost'][t] = 0.0
   if kind == 'negative':                     # a refund: negative incremental cost in the fixed scenario
     for g in spec['geos']:
       g['cost'] = [-c for c in g['cost']]
@@ -55,7 +68,12 @@ def analyse(seed):
   level = rng.choice([0.9, 0.8, 0.95, 0.5, 0.3])
   tails = rng.choice([1, 2])
   thr = rng.choice([0.0, 0.5, 2.0])
-  m = fit_iroas(spec)
+  r2 = random.Random(seed * 17 + 3)
+  history = None
+  if r2.random() < 0.4:                      # the object analysed an experiment of the other cost scenario before
+    history = tbrfam.gen_frame(seed + 77, cooldown=spec['n_cool'] > 0, scenario='variable' if want_fixed else 'fixed')
+  out['reused'] = history is not None
+  m = fit_iroas(spec, history=history)
   rep = row(m.summary(level=level, posterior_threshold=thr, tails=tails, nsims=2000, random_state=7))
   if rep['scenario'] != ('fixed' if want_fixed else 'variable'):
     out['fails'].append('scenario labelled %s but the non-incremental cost is %r' % (rep['scenario'], non_incr))
@@ -138,8 +156,9 @@ def run(tier):
       known[klass] = known.get(klass, 0) + 1
   ck.sample({'seed': res[0]['seed'], 'kind': res[0].get('kind')})
   ck.cov['rule'] = ('experiment frames x cost patterns {fixed, variable, tiny non-incremental cost, control-only cost, pre-only cost, negative '
-                    'cost} x level in {.9,.8,.95,.5,.3} x tails x threshold; fixed-cost figures against TBR.summary of the response and the '
+                    'cost, treatment-only spend incl. pre-period, control pre-period spend only} x {fresh object, object that analysed an experiment of the other scenario before} x level in {.9,.8,.95,.5,.3} x tails x threshold; fixed-cost figures against TBR.summary of the response and the '
                     'incremental cost; variable-cost report twice with the same random_state; both under a change of units (powers of two)')
+  kinds['reused_object'] = sum(1 for o in res if o.get('reused'))
   ck.cov['distribution'] = kinds
   ck.cov['known_finding_observations'] = known
   ck.assumptions = ['probability is compared with the posterior threshold expressed in the new iROAS unit',
